@@ -1,4 +1,6 @@
-(* Facts about NFAs produced by [compile]. *)
+(* Facts about NFAs produced by [compile]: the flag pre-computation is sound, and the
+   layout -- step j sits at state [sid steps j], an `all` step is followed by its
+   continue state, transitions lead from one step to the next. *)
 From VP Require Import Base.Tactics Zdd.Model Sase.Model Sase.ProofsBounds Sase.ProofsSound.
 
 Lemma compile_flags steps : flags_ok (compile steps).
@@ -14,4 +16,198 @@ Proof.
   exists ep. eexists. cbn. split; [exact Iep|]. split.
   - rewrite nth_error_map, He. reflexivity.
   - cbn. destruct (s_type e0); try discriminate. reflexivity.
+Qed.
+
+(* ---- list plumbing ---- *)
+Lemma nth_upd_same {A} (l : list A) i f x : nth_error l i = Some x -> nth_error (upd l i f) i = Some (f x).
+Proof.
+  revert i. induction l as [|y l IH]; intros i H; destruct i; cbn in *; try discriminate.
+  - inversion H; reflexivity.
+  - apply IH; exact H.
+Qed.
+Lemma nth_upd_other {A} (l : list A) i j f : i <> j -> nth_error (upd l i f) j = nth_error l j.
+Proof. revert i j. induction l as [|y l IH]; intros [|i] [|j] H; cbn; auto; try lia. all: try (apply IH; lia). Qed.
+Lemma upd_app_l {A} (l m : list A) i f : i < length l -> upd (l ++ m) i f = upd l i f ++ m.
+Proof. revert i. induction l as [|y l IH]; intros [|i] H; cbn in *; try lia; [reflexivity|]. f_equal. apply IH. lia. Qed.
+Lemma upd_app_r {A} (l : list A) x f : upd (l ++ [x]) (length l) f = l ++ [f x].
+Proof. induction l as [|y l IH]; cbn; [reflexivity | f_equal; exact IH]. Qed.
+Lemma upd_length' {A} (l : list A) i f : length (upd l i f) = length l.
+Proof. apply upd_length. Qed.
+
+(* ---- layout ---- *)
+Definition count_all (ss : list step) : nat := length (filter st_all ss).
+Definition off (ss : list step) : nat := 1 + length ss + count_all ss.
+Definition sid (ss : list step) (j : nat) : nat := off (firstn j ss).
+
+Definition postpone (s : step) : bool :=
+  match st_pred s with Some p => classify p (st_alias s) | None => false end.
+Definition step_state (s : step) (i : nat) (nx : list nat) : state :=
+  if st_all s then
+    mkState TKleene (Some (st_ty s)) (if postpone s then None else st_pred s) (st_alias s) [i; S i] [] true
+            (if postpone s then st_pred s else None) false
+  else mkState TNormal (Some (st_ty s)) (st_pred s) (st_alias s) [] nx false None false.
+Definition cont_state (nx : list nat) : state := mkState TNormal None None None [] nx false None false.
+Definition start_state (nx : list nat) : state := mkState TStart None None None [] nx false None false.
+
+Definition nexts (ss : list step) (j : nat) : list nat := if Nat.ltb (S j) (length ss) then [sid ss (S j)] else [].
+
+Record layout (ss : list step) (n : nfa) : Prop := {
+  lay_len : length n = off ss;
+  lay_start : nth_error n 0 = Some (start_state (match ss with [] => [] | _ => [1] end));
+  lay_step : forall j s, nth_error ss j = Some s ->
+    nth_error n (sid ss j) = Some (step_state s (sid ss j) (nexts ss j)) /\
+    (st_all s = true -> nth_error n (S (sid ss j)) = Some (cont_state (nexts ss j))) }.
+
+Lemma count_all_app a b : count_all (a ++ b) = count_all a + count_all b.
+Proof. unfold count_all. rewrite filter_app, app_length. reflexivity. Qed.
+Lemma off_snoc ss s : off (ss ++ [s]) = off ss + (if st_all s then 2 else 1).
+Proof. unfold off. rewrite app_length, count_all_app. unfold count_all. cbn. destruct (st_all s); cbn; lia. Qed.
+Lemma sid_snoc ss s j : j <= length ss -> sid (ss ++ [s]) j = sid ss j.
+Proof. intros L. unfold sid. rewrite firstn_app. replace (j - length ss) with 0 by lia. cbn. rewrite app_nil_r. reflexivity. Qed.
+Lemma sid_full ss : sid ss (length ss) = off ss.
+Proof. unfold sid. rewrite firstn_all. reflexivity. Qed.
+Lemma firstn_S_snoc (ss : list step) j s : nth_error ss j = Some s -> firstn (S j) ss = firstn j ss ++ [s].
+Proof.
+  revert j. induction ss as [|y l IH]; intros j H; destruct j; cbn in *; try discriminate.
+  - inversion H; reflexivity.
+  - f_equal. apply IH. exact H.
+Qed.
+Lemma off_app_le a b : off a <= off (a ++ b).
+Proof. unfold off. rewrite app_length, count_all_app. lia. Qed.
+Lemma off_firstn_le ss k : off (firstn k ss) <= off ss.
+Proof. pose proof (off_app_le (firstn k ss) (skipn k ss)) as H. rewrite firstn_skipn in H. exact H. Qed.
+Lemma sid_S ss j s : nth_error ss j = Some s -> sid ss (S j) = sid ss j + (if st_all s then 2 else 1).
+Proof. intros H. unfold sid. rewrite (firstn_S_snoc _ _ _ H). apply off_snoc. Qed.
+Lemma sid_lt ss j s : nth_error ss j = Some s -> sid ss j + (if st_all s then 2 else 1) <= off ss.
+Proof. intros H. rewrite <- (sid_S _ _ _ H). apply off_firstn_le. Qed.
+Lemma sid_pos ss j : 1 <= sid ss j.
+Proof. unfold sid, off. lia. Qed.
+
+Definition build (ss : list step) : nfa * nat :=
+  fold_left (fun '(n, prev) s => compile_step n prev s) ss ([state0 TStart], 0).
+
+Lemma build_snoc ss s : build (ss ++ [s]) = let '(n, prev) := build ss in compile_step n prev s.
+Proof. unfold build. rewrite fold_left_app. cbn. destruct (fold_left _ ss _). reflexivity. Qed.
+
+(* the state added for a step, before the Kleene conversion *)
+Lemma add_trans_content (n : nfa) from to s :
+  nth_error n from = Some s ->
+  nth_error (add_trans n from to) from =
+    Some (mkState (s_type s) (s_evt s) (s_pred s) (s_alias s) (s_eps s) (s_trans s ++ [to]) (s_self s) (s_post s) (s_eps_acc s)).
+Proof. intros H. unfold add_trans. erewrite nth_upd_same by exact H. reflexivity. Qed.
+
+Theorem build_layout ss : layout ss (fst (build ss)) /\ snd (build ss) = off ss - 1.
+Proof.
+  induction ss as [|s ss IH] using rev_ind.
+  - cbn. split; [|reflexivity]. split; cbn; [reflexivity | reflexivity |].
+    intros j s H. destruct j; discriminate.
+  - rewrite build_snoc. destruct (build ss) as [n prev] eqn:B. cbn [fst snd] in IH.
+    destruct IH as [[Len St Stp] Pv]. subst prev.
+    set (id := length n).
+    assert (Eid : id = off ss) by exact Len.
+    assert (Ppos : off ss - 1 < length n) by (rewrite Len; unfold off; lia).
+    (* the state that receives the new transition *)
+    unfold compile_step. fold id.
+    set (new0 := mkState TNormal (Some (st_ty s)) (st_pred s) (st_alias s) [] [] false None false).
+    set (n2 := add_trans (n ++ [new0]) (off ss - 1) id).
+    assert (N2len : length n2 = S id) by (unfold n2, add_trans; rewrite upd_length, app_length; cbn; lia).
+    assert (N2id : nth_error n2 id = Some new0).
+    { unfold n2, add_trans. rewrite nth_upd_other by lia. rewrite nth_error_app2 by lia.
+      replace (id - length n) with 0 by lia. reflexivity. }
+    assert (N2old : forall q, q < id -> q <> off ss - 1 -> nth_error n2 q = nth_error n q).
+    { intros q Lq Nq. unfold n2, add_trans. rewrite nth_upd_other by lia. apply nth_error_app1. exact Lq. }
+    assert (N2prev : forall x, nth_error n (off ss - 1) = Some x ->
+              nth_error n2 (off ss - 1) =
+              Some (mkState (s_type x) (s_evt x) (s_pred x) (s_alias x) (s_eps x) (s_trans x ++ [id]) (s_self x) (s_post x) (s_eps_acc x))).
+    { intros x Hx. unfold n2. apply add_trans_content. rewrite nth_error_app1 by exact Ppos. exact Hx. }
+    (* facts about old steps in n2, with the last one's next-list updated *)
+    assert (Old : forall j s', nth_error ss j = Some s' ->
+              nth_error n2 (sid ss j) = Some (step_state s' (sid ss j) (nexts (ss ++ [s]) j)) /\
+              (st_all s' = true -> nth_error n2 (S (sid ss j)) = Some (cont_state (nexts (ss ++ [s]) j)))).
+    { intros j s' Hj. destruct (Stp j s' Hj) as [A Bc].
+      pose proof (sid_lt ss j s' Hj) as Ls.
+      assert (Lj : j < length ss) by (apply nth_error_Some; congruence).
+      unfold nexts. rewrite app_length. cbn [length].
+      destruct (Nat.eq_dec (S j) (length ss)) as [Last|NotLast].
+      - (* the last old step: its successor list becomes [id] *)
+        assert (Off : off ss = sid ss j + (if st_all s' then 2 else 1)).
+        { rewrite <- (sid_S _ _ _ Hj), Last. symmetry. apply sid_full. }
+        replace (Nat.ltb (S j) (length ss + 1)) with true by (symmetry; apply Nat.ltb_lt; lia).
+        rewrite sid_snoc by lia. rewrite Last, sid_full. fold id in Eid. rewrite <- Eid.
+        unfold nexts in A, Bc. replace (Nat.ltb (S j) (length ss)) with false in A, Bc by (symmetry; apply Nat.ltb_ge; lia).
+        destruct (st_all s') eqn:Al.
+        + (* prev is the continue state *)
+          assert (Pv : off ss - 1 = S (sid ss j)) by lia.
+          split.
+          * rewrite N2old by lia. rewrite A. unfold step_state. rewrite Al. reflexivity.
+          * intros _. rewrite <- Pv. rewrite (N2prev _ ltac:(rewrite Pv; exact (Bc eq_refl))). reflexivity.
+        + assert (Pv : off ss - 1 = sid ss j) by lia.
+          split; [|discriminate]. rewrite <- Pv. rewrite (N2prev _ ltac:(rewrite Pv; exact A)).
+          unfold step_state. rewrite Al. reflexivity.
+      - assert (Lt : S j < length ss) by lia.
+        replace (Nat.ltb (S j) (length ss + 1)) with true by (symmetry; apply Nat.ltb_lt; lia).
+        unfold nexts in A, Bc. replace (Nat.ltb (S j) (length ss)) with true in A, Bc by (symmetry; apply Nat.ltb_lt; lia).
+        rewrite sid_snoc by lia.
+        destruct (nth_error ss (S j)) as [s2|] eqn:H2; [|apply nth_error_None in H2; lia].
+        pose proof (sid_lt ss (S j) s2 H2) as L2.
+        assert (Mono : sid ss j + (if st_all s' then 2 else 1) = sid ss (S j)) by (symmetry; apply sid_S; exact Hj).
+        split.
+        + rewrite N2old; [exact A | destruct (st_all s'), (st_all s2); lia | destruct (st_all s'), (st_all s2); lia].
+        + intros Al. rewrite N2old; [exact (Bc Al) | rewrite Al in Mono; destruct (st_all s2); lia | rewrite Al in Mono; destruct (st_all s2); lia]. }
+    (* the start state *)
+    assert (Start2 : nth_error n2 0 = Some (start_state [1])).
+    { destruct ss as [|s0 ss0].
+      - cbn in *. assert (E0 : off [] - 1 = 0) by reflexivity.
+        change (off [] - 1) with 0 in N2prev. rewrite (N2prev _ St). cbn.
+        assert (id = 1) by (rewrite Eid; reflexivity). subst id. rewrite H. reflexivity.
+      - rewrite N2old; [exact St | lia | unfold off; cbn; lia]. }
+    destruct (st_all s) eqn:Al.
+    + (* Kleene step: conversion, self epsilon, continue state, epsilon to it *)
+      set (conv := fun x : state =>
+        let postpone := match s_pred x with Some p => classify p (s_alias x) | None => false end in
+        mkState TKleene (s_evt x) (if postpone then None else s_pred x) (s_alias x) (s_eps x) (s_trans x) true
+                (if postpone then s_pred x else None) false).
+      set (n3 := upd n2 id conv).
+      set (n4 := add_eps n3 id id).
+      assert (L4 : length n4 = S id) by (unfold n4, add_eps, n3; rewrite !upd_length; exact N2len).
+      rewrite L4.
+      set (n6 := add_eps (n4 ++ [state0 TNormal]) id (S id)).
+      cbn [fst snd]. split; [|rewrite off_snoc, Al; lia].
+      assert (Other : forall q, q <> id -> q < S id -> nth_error n6 q = nth_error n2 q).
+      { intros q Nq Lq. unfold n6, add_eps. rewrite nth_upd_other by lia.
+        rewrite nth_error_app1 by lia. unfold n4, add_eps. rewrite nth_upd_other by lia.
+        unfold n3. rewrite nth_upd_other by lia. reflexivity. }
+      assert (AtId : nth_error n6 id = Some (step_state s id [])).
+      { unfold n6, add_eps. erewrite nth_upd_same; [|rewrite nth_error_app1 by lia; unfold n4, add_eps;
+          erewrite nth_upd_same; [reflexivity | unfold n3; erewrite nth_upd_same; [reflexivity | exact N2id]]].
+        unfold step_state, conv, new0, postpone. rewrite Al. cbn. reflexivity. }
+      assert (AtCont : nth_error n6 (S id) = Some (cont_state [])).
+      { unfold n6, add_eps. rewrite nth_upd_other by lia. rewrite nth_error_app2 by lia.
+        replace (S id - length n4) with 0 by lia. reflexivity. }
+      split.
+      * unfold n6, add_eps. rewrite upd_length, app_length, L4, off_snoc, Al. cbn [length]. lia.
+      * destruct ss; cbn [app]; (rewrite Other; [exact Start2 | lia | lia]).
+      * intros j s' Hj. destruct (Nat.lt_ge_cases j (length ss)) as [Lj|Gj].
+        -- rewrite nth_error_app1 in Hj by exact Lj. destruct (Old j s' Hj) as [A Bc].
+           pose proof (sid_lt ss j s' Hj) as Ls. rewrite sid_snoc by lia.
+           split; [rewrite Other; [exact A | destruct (st_all s'); lia | destruct (st_all s'); lia]|].
+           intros Al'. rewrite Other; [exact (Bc Al') | rewrite Al' in Ls; lia | rewrite Al' in Ls; lia].
+        -- rewrite nth_error_app2 in Hj by exact Gj.
+           destruct (j - length ss) as [|d] eqn:D; [|destruct d; discriminate]. cbn in Hj. inversion Hj; subst s'.
+           assert (j = length ss) by lia. subst j. rewrite sid_snoc, sid_full by lia. rewrite <- Eid.
+           unfold nexts. rewrite app_length. cbn [length].
+           replace (Nat.ltb (S (length ss)) (length ss + 1)) with false by (symmetry; apply Nat.ltb_ge; lia).
+           split; [exact AtId | intros _; exact AtCont].
+    + cbn [fst snd]. split; [|rewrite off_snoc, Al; lia].
+      split.
+      * rewrite N2len, off_snoc, Al. lia.
+      * destruct ss; cbn [app]; exact Start2.
+      * intros j s' Hj. destruct (Nat.lt_ge_cases j (length ss)) as [Lj|Gj].
+        -- rewrite nth_error_app1 in Hj by exact Lj. rewrite sid_snoc by lia. exact (Old j s' Hj).
+        -- rewrite nth_error_app2 in Hj by exact Gj.
+           destruct (j - length ss) as [|d] eqn:D; [|destruct d; discriminate]. cbn in Hj. inversion Hj; subst s'.
+           assert (j = length ss) by lia. subst j. rewrite sid_snoc, sid_full by lia. rewrite <- Eid.
+           unfold nexts. rewrite app_length. cbn [length].
+           replace (Nat.ltb (S (length ss)) (length ss + 1)) with false by (symmetry; apply Nat.ltb_ge; lia).
+           split; [|congruence]. rewrite N2id. unfold step_state, new0. rewrite Al. reflexivity.
 Qed.
